@@ -1512,9 +1512,14 @@ inline bool XMLString::validateRegion(const XMLCh* const str1,
 									  const XMLSize_t charCount)
 {
 
-	if (offset1 < 0 || offset2 < 0 ||
-		(offset1 + charCount) > XMLString::stringLen(str1) ||
-		(offset2 + charCount) > XMLString::stringLen(str2) )
+	if (offset1 < 0 || offset2 < 0)
+		return false;
+
+	// compare without adding to charCount: the sum can wrap around
+	const XMLSize_t len1 = XMLString::stringLen(str1);
+	const XMLSize_t len2 = XMLString::stringLen(str2);
+	if ((XMLSize_t)offset1 > len1 || charCount > len1 - (XMLSize_t)offset1 ||
+		(XMLSize_t)offset2 > len2 || charCount > len2 - (XMLSize_t)offset2)
 		return false;
 
 	return true;
